@@ -15,7 +15,7 @@ MUTANTS = [
     M("input removed after a successful run", (CLI, "import click\nimport tinycss2\n", "import click\nimport os\nimport tinycss2\n"), (CLI, "                f.write(tinycss2.serialize(rules))\n\n        except Exception as e:", "                f.write(tinycss2.serialize(rules))\n            os.remove(file_path)\n\n        except Exception as e:")),
     M("report written as report.css next to the inputs", (CLI, "        report_path = generate_report(stats[\"fixed_details\"])", "        report_path = generate_report(stats[\"fixed_details\"], output_path=\"cm_colors_report.css\")")),
     M("stylesheet parsed without comments", (CLI, "            rules = tinycss2.parse_stylesheet(\n                css_content, skip_whitespace=False, skip_comments=False\n            )", "            rules = tinycss2.parse_stylesheet(\n                css_content, skip_whitespace=False, skip_comments=True\n            )")),
-    M("declarations parsed without whitespace", (CLI, "            declarations = tinycss2.parse_declaration_list(\n                node.content, skip_whitespace=False, skip_comments=False\n            )", "            declarations = tinycss2.parse_declaration_list(\n                node.content, skip_whitespace=True, skip_comments=False\n            )")),
+    M("declarations parsed without whitespace", (CLI, "                declarations = tinycss2.parse_declaration_list(\n                    node.content, skip_whitespace=False, skip_comments=False\n                )", "                declarations = tinycss2.parse_declaration_list(\n                    node.content, skip_whitespace=True, skip_comments=False\n                )")),
     M("nested rules parsed with default flags", (CLI, "                nested_rules = tinycss2.parse_rule_list(\n                    node.content, skip_whitespace=False, skip_comments=False\n                )", "                nested_rules = tinycss2.parse_rule_list(node.content)")),
     M("only the valid declarations are serialised back", (CLI, "                new_content_str = tinycss2.serialize(declarations)\n                # We need to parse this back", "                new_content_str = tinycss2.serialize(valid_decls)\n                # We need to parse this back")),
     M("selector rewritten", (CLI, "            if modified:\n                # Reconstruct", "            if modified:\n                node.prelude = tinycss2.parse_component_value_list(selector + \" \")\n                # Reconstruct")),
